@@ -196,7 +196,7 @@ pub fn check(sc: &CScenario) -> CaseResult {
     if v.sends.iter().any(|s| matches!(s.msg, Msg::Cancel { .. })) {
         classes.insert("cancel-written");
     }
-    Ok(CaseOk { nontrivial: waited, classes: classes.into_iter().collect(), excluded_known: 0 })
+    Ok(CaseOk { nontrivial: waited, classes: classes.into_iter().collect(), excluded_known: run.excluded_known })
 }
 
 impl Prop for C02 {
